@@ -62,7 +62,7 @@ PROPS = {
         "families": [{"name": "c06"}, {"name": "e2e", "args": ["lite"]}],
         "rfc": True,
         "assumptions": [
-            "the right-hand side of the iff is Spec/Rfc8554.v, an independent transcription of RFC 8554 sections 4-6 validated against the Appendix F vectors; its verdict is computed in Coq for every triple the implementation judged and must be equal",
+            "the right-hand side of the proved iff (C02_verifier_is_rfc8554_verifier) is Spec/Rfc8554.v, an independent transcription of RFC 8554 sections 4-6 validated against the Appendix F vectors, run with the parameter rows of the current source (C02_tables_are_rfc_tables: RFC rows except the three known-finding rows); in addition its verdict with the literal RFC tables is computed in Coq for every triple the implementation judged and must be equal",
             "rejection of ARBITRARY altered data beyond the structural checks rests on second-preimage resistance of H and is not a theorem; it is exercised by the mutation families",
             "LMS typecode 1 (4-leaf test height enabled by the verification hook) is added to the RFC's Table 2",
         ],
@@ -70,12 +70,14 @@ PROPS = {
     "C07": {
         "families": [{"name": "e2e"}],
         "rfc": True,
+        "byte_exact": ["sign", "try_sign", "keygen"],
         "assumptions": [
-            "right-hand side: Spec/Rfc8554.v + Spec/HssSpec.v (independent transcription of RFC 8554, validated by the Appendix F vectors) over Spec/HashSigs.v; the independent-verifier clause is checked by evaluating the RFC transcription's verifier in Coq on every released signature",
+            "right-hand side: Spec/Rfc8554.v + Spec/HssSpec.v (independent transcription of RFC 8554, validated by the Appendix F vectors) over Spec/HashSigs.v; the independent-verifier clause is a theorem for the rows of the current source (C07_rfc_verifier_accepts_released_signatures) and is additionally checked with the literal RFC tables by evaluating the RFC transcription's verifier in Coq on every released signature",
         ],
     },
     "C08": {
         "families": [{"name": "e2e", "args": ["lite"]}, {"name": "hasher"}],
+        "byte_exact": ["sign", "try_sign", "keygen", "hash"],
         "assumptions": [
             "Spec/HashSigs.v is a transcription of the reference's derivation and cannot be validated against the hash-sigs binary offline (trusted)",
             "finalize = first n bytes of SHA-256 / of the SHAKE256 XOF stream is a model definition, tied to src/hasher/*.rs by the hasher-unit comparison with the sha2 / sha3 crates; the Gallina SHA-256 is compared with the library's on the same inputs",
@@ -97,12 +99,16 @@ PROPS = {
     "C14": {
         "families": [
             {"name": "c14", "config": "default", "kc": "K_src"},
-            {"name": "c14", "config": "cfg-l2-h5-w4", "kc": "with_cfg K_src 2 [5; 5] [4; 4]",
-             "env": {"HBS_LMS_MAX_ALLOWED_HSS_LEVELS": "2", "HBS_LMS_TREE_HEIGHTS": "5, 5", "HBS_LMS_WINTERNITZ_PARAMETERS": "4, 4"}},
+            {"name": "c14", "config": "cfg-l2-h5-w8-1", "kc": "with_cfg K_src 2 [5; 5] [8; 1]",
+             "env": {"HBS_LMS_MAX_ALLOWED_HSS_LEVELS": "2", "HBS_LMS_TREE_HEIGHTS": "5, 5", "HBS_LMS_WINTERNITZ_PARAMETERS": "8, 1"}},
             {"name": "c14", "config": "cfg-l1-h5-w2", "kc": "with_cfg K_src 1 [5] [2]",
              "env": {"HBS_LMS_MAX_ALLOWED_HSS_LEVELS": "1", "HBS_LMS_TREE_HEIGHTS": "5", "HBS_LMS_WINTERNITZ_PARAMETERS": "2"}},
         ],
         "thorough_families": [
+            {"name": "c14", "config": "cfg-l2-h5-w4", "kc": "with_cfg K_src 2 [5; 5] [4; 4]",
+             "env": {"HBS_LMS_MAX_ALLOWED_HSS_LEVELS": "2", "HBS_LMS_TREE_HEIGHTS": "5, 5", "HBS_LMS_WINTERNITZ_PARAMETERS": "4, 4"}},
+            {"name": "c14", "config": "cfg-l2-h5-10-w1-8", "kc": "with_cfg K_src 2 [5; 10] [1; 8]",
+             "env": {"HBS_LMS_MAX_ALLOWED_HSS_LEVELS": "2", "HBS_LMS_TREE_HEIGHTS": "5, 10", "HBS_LMS_WINTERNITZ_PARAMETERS": "1, 8"}},
             {"name": "c14", "config": "cfg-l3-h10-5-5-w1-2-4", "kc": "with_cfg K_src 3 [10; 5; 5] [1; 2; 4]",
              "env": {"HBS_LMS_MAX_ALLOWED_HSS_LEVELS": "3", "HBS_LMS_TREE_HEIGHTS": "10, 5, 5", "HBS_LMS_WINTERNITZ_PARAMETERS": "1, 2, 4"}},
             {"name": "c14", "config": "cfg-l4-h5-w8", "kc": "with_cfg K_src 4 [5; 5; 5; 5] [8; 8; 8; 8]",
